@@ -85,6 +85,11 @@ prop("C19",
      rule="for each of the 44 types: values obtained from matching texts: to_value(x) vs DOM of to_string(x), from_value(to_value(x)) = x, from_str(to_string(x)) = x; 2500 generated values of the whole serde data model: to_value must denote the value (Model/SerVal.v; f32 widened exactly), agree with the text route (except f32: F24) and fail exactly for integers beyond 64 bits; 1500 pairs of DOM values (parsed vs rebuilt with shuffled members vs perturbed): reflexive, symmetric, order- and construction-insensitive equality agreeing with the dumps; comparison with primitives",
      assumptions=["hash-map iteration order is irrelevant (sorted dumps)"])
 
+prop("C17",
+     rule="primitives: eq/le/gt + bitmask on u8x16/u8x32/u8x64/i8x16/i8x32/i8x64 with every byte value as focus lane (plus neighbours, boundary bytes, random), load/store, splat of all 256 bytes, BitMask helpers on u16/u32/u64, prefix_xor, get_nonspace_bits, get_escaped_branchless_u32/u64, get_string_bits through the hooks - both builds (target-cpu=native: AVX2+PCLMUL; baseline x86-64: SSE2 + portable fallbacks) against the lane-wise model; then the full quick suites of C02 C03 C05 C09 C10 C12 through both builds, result lines compared one by one",
+     baseline_build=True, cross_build=["C02", "C03", "C05", "C09", "C10", "C12"],
+     assumptions=["the lane-wise meaning of the Intel intrinsics is observed on this CPU only; NEON is not built here"])
+
 def classify_known(pid, case, known):
     """return the id of the recorded known finding this mismatch belongs to, or None"""
     for k in known:
@@ -153,6 +158,40 @@ def run_correspondence(pid, P, tier, seed, work, harness, run_model, load_tsv, k
             d[1] += 1
             continue
         mism.append(case)
+    # C17: the same generated suites through the second build; every result line must be identical
+    if P.get("cross_build"):
+        base = harness.replace("/target/", "/target-baseline/")
+        # the primitives of this property through the baseline build, against the model
+        bdir = os.path.join(work, "baseline")
+        pb = subprocess.run([base, "run", pid, tier, str(seed), bdir], stdout=subprocess.PIPE, stderr=subprocess.STDOUT, timeout=3400, text=True, errors="replace")
+        if pb.returncode != 0:
+            mism.append({"id": "baseline", "op": "process", "args": [], "impl": "baseline harness exited %d" % pb.returncode, "model": "", "kind": "api"})
+        else:
+            bimpl = load_tsv(os.path.join(bdir, "impl.tsv"))
+            for i, want in bimpl.items():
+                if model.get(i) != want:
+                    parts = cases.get(i, "").split("\t")
+                    mism.append({"id": i, "op": parts[0], "args": parts[1:], "impl": want, "model": model.get(i, "(missing)"), "seed": seed, "tier": tier, "kind": "api", "build": "baseline"})
+        total = 0
+        for suite in P["cross_build"]:
+            d1, d2 = os.path.join(work, "x-" + suite + "-native"), os.path.join(work, "x-" + suite + "-baseline")
+            r1 = subprocess.run([harness, "run", suite, "quick", str(seed), d1], stdout=subprocess.PIPE, stderr=subprocess.STDOUT, timeout=3400)
+            r2 = subprocess.run([base, "run", suite, "quick", str(seed), d2], stdout=subprocess.PIPE, stderr=subprocess.STDOUT, timeout=3400)
+            if r1.returncode != 0 or r2.returncode != 0:
+                mism.append({"id": suite, "op": "process", "args": [suite], "impl": "harness exit %d / %d" % (r1.returncode, r2.returncode), "model": "", "kind": "api"})
+                continue
+            a, b = load_tsv(os.path.join(d1, "impl.tsv")), load_tsv(os.path.join(d2, "impl.tsv"))
+            ca = load_tsv(os.path.join(d1, "cases.tsv"))
+            cb = load_tsv(os.path.join(d2, "cases.tsv"))
+            total += len(a)
+            for i in a:
+                if a[i] != b.get(i) or ca.get(i) != cb.get(i):
+                    parts = ca.get(i, "").split("\t")
+                    mism.append({"id": i, "op": parts[0], "args": parts[1:], "impl": "native: %s | baseline: %s" % (a[i][:300], (b.get(i) or "")[:300]), "model": "both builds must agree", "suite": suite, "seed": seed, "tier": "quick", "kind": "api"})
+                    if len(mism) > 60:
+                        break
+        stats.setdefault("stats", {})["cross-build cases compared"] = total
+        stats["evaluations"] = stats.get("evaluations", 0) + total
     # API-level mismatches first: they are failing inputs of the property itself
     mism.sort(key=lambda c: (c["kind"] != "api", len("".join(c["args"]))))
     return stats, mism, {k: tuple(v) for k, v in known_hits.items()}, notes
